@@ -82,6 +82,11 @@ type tcase struct {
 	// round 8: non-default proxy configuration and a slow daemon (all in ms; rhMs == 0: default configuration)
 	rhMs, idleMs   int // read_header_timeout, idle_timeout
 	delayMs, gapMs int // the daemon answers after delayMs and pauses gapMs in the middle of its body
+
+	// round 8b: repo/stat: RepoStat calls (numbered in arrival order) that fail; repo/gc: the collection reports
+	// errors (bit 0: a second peer failed as a whole, bit 1: the first key carries an error)
+	statBad []int
+	gcErr   int
 }
 
 func (c *tcase) slowTokens() string {
@@ -93,6 +98,21 @@ func (c *tcase) slowTokens() string {
 		rh, idle = int(ipfsproxy.DefaultReadHeaderTimeout/time.Millisecond), int(ipfsproxy.DefaultIdleTimeout/time.Millisecond)
 	}
 	return fmt.Sprintf(" cf=%d:%d dl=%d:%d", rh, idle, c.delayMs, c.gapMs)
+}
+
+func (c *tcase) aggTokens() string {
+	s := ""
+	if len(c.statBad) > 0 {
+		l := make([]string, len(c.statBad))
+		for i, k := range c.statBad {
+			l[i] = strconv.Itoa(k)
+		}
+		s += " sb=" + strings.Join(l, ".")
+	}
+	if c.gcErr != 0 {
+		s += fmt.Sprintf(" ge=%d", c.gcErr)
+	}
+	return s
 }
 
 type dreq struct {
@@ -240,9 +260,40 @@ func newDaemon() *daemon {
 // recording fake RPC services
 
 type recorder struct {
-	mu    sync.Mutex
-	cur   *tcase
-	calls []string
+	mu        sync.Mutex
+	cur       *tcase
+	calls     []string
+	statCalls int
+}
+
+// recStat records the next RepoStat call (numbered in arrival order) and returns its scripted error
+func (r *recorder) recStat() error {
+	r.mu.Lock()
+	defer r.mu.Unlock()
+	k := r.statCalls
+	r.statCalls++
+	failed := false
+	if r.cur != nil {
+		for _, f := range r.cur.fails {
+			if f == "IPFSConnector.RepoStat" {
+				failed = true
+			}
+		}
+		for _, b := range r.cur.statBad {
+			if b == k {
+				failed = true
+			}
+		}
+	}
+	ok := "1"
+	if failed {
+		ok = "0"
+	}
+	r.calls = append(r.calls, fmt.Sprintf("IPFSConnector.RepoStat||0||||0|0|%s", ok))
+	if failed {
+		return errors.New("scripted failure of IPFSConnector.RepoStat")
+	}
+	return nil
 }
 
 func (r *recorder) fail(name string) bool {
@@ -374,10 +425,18 @@ func (f *fakeCluster) RepoGC(ctx context.Context, in struct{}, out *api.GlobalRe
 		return err
 	}
 	gc := &api.RepoGC{Peer: common.PeerN(0)}
-	for _, s := range f.r.script().gcKeys {
-		gc.Keys = append(gc.Keys, api.IPFSRepoGC{Key: mustCid(s)})
+	ge := f.r.script().gcErr
+	for i, s := range f.r.script().gcKeys {
+		k := api.IPFSRepoGC{Key: mustCid(s)}
+		if i == 0 && ge&2 != 0 {
+			k.Error = "scripted gc error for this key"
+		}
+		gc.Keys = append(gc.Keys, k)
 	}
 	*out = api.GlobalRepoGC{PeerMap: map[string]*api.RepoGC{peer.Encode(common.PeerN(0)): gc}}
+	if ge&1 != 0 {
+		out.PeerMap[peer.Encode(common.PeerN(1))] = &api.RepoGC{Peer: common.PeerN(1), Error: "scripted gc failure of this peer"}
+	}
 	return nil
 }
 
@@ -398,7 +457,7 @@ func (f *fakeIPFS) Resolve(ctx context.Context, in string, out *cid.Cid) error {
 }
 
 func (f *fakeIPFS) RepoStat(ctx context.Context, in struct{}, out *api.IPFSRepoStat) error {
-	if err := f.r.rec("IPFSConnector.RepoStat", "", false, cid.Undef, cid.Undef, "", 0, 0, true); err != nil {
+	if err := f.r.recStat(); err != nil {
 		return err
 	}
 	*out = api.IPFSRepoStat{RepoSize: 1000, StorageMax: 100000}
@@ -571,9 +630,11 @@ func (w *world) exec(c *tcase) (obs observation) {
 	w.d.mu.Lock()
 	w.d.cur, w.d.record = c, nil
 	w.d.mu.Unlock()
-	w.rec.mu.Lock()
-	w.rec.cur, w.rec.calls = c, nil
-	w.rec.mu.Unlock()
+	// a fresh recorder and RPC client per attempt (round 8b): the handler of an earlier, abandoned attempt of the same case
+	// (a slow-daemon case whose connection was cut and that is retried) may still be running and must not record its RPCs
+	// into this attempt's list (observed once under load: PinPath listed twice => false hijack_success_op)
+	w.rec = &recorder{cur: c}
+	w.cl = newRPC(w.rec)
 
 	p, addr, err := w.startProxy(c)
 	if err != nil {
@@ -887,7 +948,7 @@ func inputTokens(c *tcase) string {
 	if len(c.fails) > 0 {
 		f = strings.Join(c.fails, ",")
 	}
-	return fmt.Sprintf("%s p=%s q=%s h=%s b=%s ds=%d:%s:%s f=%s pc=%s rc=%s pins=%s np=%d gc=%s or=%s ing=%d xp=%s dx=%s"+c.slowTokens(),
+	return fmt.Sprintf("%s p=%s q=%s h=%s b=%s ds=%d:%s:%s f=%s pc=%s rc=%s pins=%s np=%d gc=%s or=%s ing=%d xp=%s dx=%s"+c.slowTokens()+c.aggTokens(),
 		c.method, hxs(c.path), qTok(c.query), hdrTok(c.hdrs), hx(c.body), c.dStatus, hx(c.dBody), hxs(c.dHdr), f,
 		hxs(c.pinCid), hxs(c.resCid), hxList(c.pins), c.npeers, hxList(c.gcKeys), oracles(c), ingest(c),
 		hxs(ipfsproxy.DefaultExtractHeadersPath), daemonWouldRun(c))
@@ -1060,6 +1121,16 @@ func parseLine(line string) (*tcase, error) {
 			} else {
 				c.delayMs, c.gapMs = a, b
 			}
+		case "sb":
+			for _, x := range strings.Split(v, ".") {
+				var n int
+				if n, err = strconv.Atoi(x); err != nil {
+					break
+				}
+				c.statBad = append(c.statBad, n)
+			}
+		case "ge":
+			c.gcErr, err = strconv.Atoi(v)
 		case "or", "ing", "xp", "dx":
 			// recomputed
 		default:
@@ -1427,13 +1498,32 @@ func genHijack(r *common.Rng, c *tcase) {
 			q = append(q, kv{"size-only", "true"})
 		}
 		junk()
+		// round 8b: some of the peers fail (any subset, in arrival order of the calls)
+		if c.npeers > 0 && r.Chance(1, 2) {
+			for k := 0; k < c.npeers; k++ {
+				if r.Chance(1, 3) {
+					c.statBad = append(c.statBad, k)
+				}
+			}
+		}
 	default:
 		genEnv(r, c, []string{"Cluster.RepoGC"})
 		c.path = "/api/v0/repo/gc"
+		se := ""
 		if r.Chance(1, 2) {
-			q = append(q, kv{"stream-errors", pick(r, []string{"true", "false"})})
+			se = pick(r, []string{"true", "false"})
+			q = append(q, kv{"stream-errors", se})
 		}
 		junk()
+		// round 8b: the collection reports a failed peer and/or a key error. Without stream-errors=true the handler
+		// reports them in X-Stream-Error AFTER the collection ran (proposed finding, notes/C12.md "Round 8b"): those
+		// inputs are only generated with VERIF_C12_GCERR=1 until the finding is registered.
+		if (se == "true" || os.Getenv("VERIF_C12_GCERR") == "1") && r.Chance(1, 2) {
+			c.gcErr = 1 + r.Intn(3)
+			if len(c.gcKeys) == 0 {
+				c.gcErr = 1
+			}
+		}
 	}
 	for i := len(q) - 1; i > 0; i-- {
 		// keep the relative order of the arg values
